@@ -282,7 +282,12 @@ func (p *Proxy) handleHTTP(r responder.Responder, proxyReq *http.Request) error 
 	metrics.Global.Requests.HTTPProxyRequests.Increment()
 
 	clientHd := headers.ParseHeaderDirective(proxyReq.Header)
-	clientHd.StripRegularConditionals(proxyReq.Header)
+	if proxyReq.Method == http.MethodGet {
+		// A GET may be answered from the store or fetched in full to be stored: the client's conditionals
+		// have no part in that. On every other method they are the client's business with the origin
+		// (a PUT guarded by If-Match must arrive guarded).
+		clientHd.StripRegularConditionals(proxyReq.Header)
+	}
 
 	key := cache.MakeFromRequest(proxyReq)
 
